@@ -295,6 +295,46 @@ func init() {
 }
 
 func init() {
+	// sync/atomic: plain memory operations (one interpreted goroutine runs at a time);
+	// each is a scheduling point.
+	for _, t := range []string{"Int32", "Int64", "Uint32", "Uint64", "Uintptr", "Pointer"} {
+		t := t
+		externTable["sync/atomic.Load"+t] = func(fr *frame, fn *ssa.Function, a []value) value {
+			fr.in.preemptPoint(fr.g)
+			return *derefPtr(a[0], "atomic load")
+		}
+		externTable["sync/atomic.Store"+t] = func(fr *frame, fn *ssa.Function, a []value) value {
+			fr.in.preemptPoint(fr.g)
+			*derefPtr(a[0], "atomic store") = a[1]
+			return nil
+		}
+		externTable["sync/atomic.Swap"+t] = func(fr *frame, fn *ssa.Function, a []value) value {
+			fr.in.preemptPoint(fr.g)
+			p := derefPtr(a[0], "atomic swap")
+			old := *p
+			*p = a[1]
+			return old
+		}
+		externTable["sync/atomic.CompareAndSwap"+t] = func(fr *frame, fn *ssa.Function, a []value) value {
+			fr.in.preemptPoint(fr.g)
+			p := derefPtr(a[0], "atomic cas")
+			eq := fr.in.equalsV(fn.Signature.Params().At(1).Type(), *p, a[1])
+			b, ok := eq.(bool)
+			if !ok {
+				b = fr.in.decide(eq.(*Sym).T)
+			}
+			if b {
+				*p = a[2]
+			}
+			return b
+		}
+		externTable["sync/atomic.Add"+t] = func(fr *frame, fn *ssa.Function, a []value) value {
+			fr.in.preemptPoint(fr.g)
+			p := derefPtr(a[0], "atomic add")
+			*p = fr.in.binop(token.ADD, fn.Signature.Params().At(1).Type(), *p, a[1])
+			return *p
+		}
+	}
 	// grpc's status.Status is an alias of internal/status.Status
 	for k, v := range externTable {
 		const pub = "(*google.golang.org/grpc/status.Status)."
